@@ -31,7 +31,7 @@ func (s firstScen) String(op string) string {
 	for i, r := range s.script {
 		sc[i] = r.String()
 	}
-	return fmt.Sprintf("%s v%d %s %s %d %s %s", op, s.ver, s.consumer, s.prefetch, s.pageSize, s.kind, strings.Join(sc, ";"))
+	return fmt.Sprintf("%s %s %s %s %d %s %s", op, s.vtok(), s.consumer, s.prefetch, s.pageSize, s.kind, strings.Join(sc, ";"))
 }
 
 // firstPageDecides: false for scripts whose first page (after UNPREPARED answers) is EMPTY with has_more_pages (the inputs of KF-C15-4); used for the case classes only
